@@ -15,6 +15,7 @@ from vf.gen import url as G
 from vf.gen import spell as S
 from vf.props import c04 as N
 
+MIN_RANDOM = 150  # random iterations run per shard whatever the wall-clock budget (floors must not depend on machine load)
 SHARDS = {"quick": 4, "thorough": 16}
 BUDGET = {"quick": 22, "thorough": 240}
 MIN_CASES = {"quick": 8000, "thorough": 200000}
@@ -261,6 +262,11 @@ def run(ctx):
                         check_chain(ctx, fn, u, [("case-any", v)], OPTSETS)
                         ctx.count("redirect-carrier-case-flip")
                         ctx.count("T-case-any")
+            for a, b, nm in (("http://example.com/a?id=1", "http://fr.example.com/a?id=1", "lang-xx"), ("http://example.com/a", "http://FR-be.example.com/a", "lang-xx-yy"),
+                             ("www.example.co.uk/x", "de.www.example.co.uk/x", "lang-xx"), ("www.example.co.uk/x", "www.pt-BR.example.co.uk/x", "lang-xx-yy")):
+                check_chain(ctx, fn, a, [(nm, b)], OPTSETS)
+                ctx.count("T-" + nm)
+                ctx.count("lang-with-www")
             for a, b in (("a.com/?B=1&a=2", "a.com/?%42=1&a=2"), ("a.com/x?ref=FB", "a.com/x?ref=%46B"), ("a.com/Abc/Index.html", "a.com/%41bc/%49ndex.html"), ("a.com/x/b.AMP?Z=1", "a.com/x/b.%41MP?%5A=1")):
                 check_chain(ctx, fn, a, [("escape", b)], OPTSETS)
                 ctx.count("escaped-uppercase")
@@ -336,7 +342,7 @@ def run(ctx):
         names = list(CASE_T)
         n = 0
         lim = 6000 if ctx.tier == "quick" else 10 ** 7
-        while ctx.time_left() and n < lim:
+        while (ctx.time_left() or n < MIN_RANDOM) and n < lim:
             n += 1
             h, (p, tr), q, f = rng.choice(grid)
             base = G.base_case(host=h, path=copy.deepcopy(p), trailing=tr, query=copy.deepcopy(q), fragment=copy.deepcopy(f), scheme=rng.choice(["http://", "https://", ""]))
